@@ -83,6 +83,21 @@ def flagMask (ne : Bool) (flags : Nat → Nat → Nat) (c : Nat) : Mask :=
 /-- `np.isfinite` on a cell of the model, which has no infinities: not NaN -/
 def isfinite (v : Val) : Bool := v.isNum
 
+/-! ### dtype casts and index tuples (dataset construction, `Generated/KernelsDataset.lean`) -/
+
+/-- `.astype(np.int<bits>)` / `.astype(np.uint<bits>)` of an integer, and the store of an integer into an array of
+    that dtype: C wrap-around (two's complement) -/
+def wrapInt (bits : Nat) (signed : Bool) (v : Int) : Int :=
+  if signed then (v + 2 ^ (bits - 1)) % 2 ^ bits - 2 ^ (bits - 1) else v % 2 ^ bits
+
+/-- `idx[0].size != 0` for `idx = np.where(m)`, `m` a (bands, rows, cols) boolean array: some cell is selected -/
+def anyIdx3 (nbands rows cols : Nat) (m : Nat → Nat → Nat → Bool) : Bool :=
+  (List.range rows).any fun r => (List.range cols).any fun c => (List.range nbands).any fun b => m b r c
+
+/-- `(idx[-2], idx[-1])` as a 2-D index set: the pixels selected in some band -/
+def pix2 (nbands : Nat) (m : Nat → Nat → Nat → Bool) : Nat → Nat → Bool :=
+  fun r c => (List.range nbands).any fun b => m b r c
+
 /-! ### views and the block statement -/
 
 /-- `sliding_window(base, (w, w))`: no content of its own -/
